@@ -227,4 +227,30 @@ theorem toF_validVs : ∀ (vs : JVals) (a : Bytes), JValidVs vs a → FValidVs v
     exact ⟨toF_validV v _ h.1, toF_validVs rest _ h.2⟩
 end
 
+/-- `a={b=c d e {f=g}}` + newline: a mixed container with a container in its array part -/
+def exampleFullValid : FFields :=
+  .cons [] ⟨false, [97]⟩ [] .eq
+    (.mixed [] [] (.kv ⟨false, [98]⟩ [] .eq (.scal [] ⟨false, [99]⟩)) .nil [32] ⟨false, [100]⟩
+      (.scal [32] ⟨false, [101]⟩
+        (.cont (.obj [32] [] (.kv ⟨false, [102]⟩ [] .eq (.scal [] ⟨false, [103]⟩)) .nil []) .nil)) []) .nil
+theorem exampleFullValid_valid : FValidF exampleFullValid [10] ∧ Blank [10] ∧ hasBom (frenderF exampleFullValid ++ [10]) = false := by
+  have hb : ∀ c : UInt8, isBoundary c = true → ∀ r, StartsBoundary (c :: r) := fun c h r => .inr ⟨c, r, rfl, h⟩
+  have sp : Blank [32] := .ws 32 [] (by decide +kernel) .nil
+  have u : ∀ c : UInt8, isBoundary c = false → isBlank c = false → c ≠ 34 → c ≠ 64 → (Scal.mk false [c]).ValidX :=
+    fun c a b d e => .inl (unq_valid c a b d e)
+  refine ⟨?_, .ws 10 [] (by decide +kernel) .nil, by decide +kernel⟩
+  simp only [exampleFullValid, FValidF, FValidV, FValidFirst, FValidI, FVal.scalarLed, FFirst.scalarLed, frenderF, frenderV,
+    frenderFirst, frenderI, Op.text, Scal.text, List.nil_append, List.append_nil, and_true, true_and]
+  refine ⟨.nil, .nil, u 97 (by decide +kernel) (by decide +kernel) (by decide) (by decide),
+    fun _ => hb 61 (by decide +kernel) _, .nil, .nil, sp, .nil,
+    ⟨.nil, u 98 (by decide +kernel) (by decide +kernel) (by decide) (by decide), fun _ => hb 61 (by decide +kernel) _,
+      .nil, u 99 (by decide +kernel) (by decide +kernel) (by decide) (by decide), fun _ => hb 32 (by decide +kernel) _⟩,
+    u 100 (by decide +kernel) (by decide +kernel) (by decide) (by decide),
+    fun _ => hb 32 (by decide +kernel) _,
+    mix_concrete (d := [101, 32, 123, 102, 61, 103, 125, 125, 10]) (by decide +kernel) (by decide +kernel) (by decide),
+    sp, u 101 (by decide +kernel) (by decide +kernel) (by decide) (by decide), fun _ => hb 32 (by decide +kernel) _,
+    sp, .nil, .nil, .nil, u 102 (by decide +kernel) (by decide +kernel) (by decide) (by decide),
+    fun _ => hb 61 (by decide +kernel) _, .nil,
+    u 103 (by decide +kernel) (by decide +kernel) (by decide) (by decide), fun _ => hb 125 (by decide +kernel) _⟩
+
 end Jomini.TextTape
